@@ -1773,7 +1773,8 @@ def check_C12(ctx):
         off = rng.randrange(0, bufsize - size + 1)
         data = bytes(rng.randrange(256) for _ in range(size))
         buf = bytearray(b"\xaa" * bufsize); buf[off:off + size] = data
-        cases.append((f"setc {bufsize} {off} {size} {data.hex()}", bytes(buf).hex(), f"setc {bufsize} {off} {size} {data.hex()}"))
+        form = rng.choice(["setc", "setc", "setw", "setp"])      # the setter alone, behind a when() for the same parameter, behind a capture of it
+        cases.append((f"{form} {bufsize} {off} {size} {data.hex()}", bytes(buf).hex(), f"setc {bufsize} {off} {size} {data.hex()}"))
     for size in (1, 2, 4, 8):
         for v in B + [rng.randrange(-2**63, 2**63) for _ in range(sizes(ctx, 60, 3000))]:
             want = "aa" * 8 + (v % 2**(8 * size)).to_bytes(size, "little").hex() + "aa" * 8
